@@ -51,9 +51,10 @@ TRUSTED = [
 ASSUMPTIONS = [
     "user features are not called sofa, xmiID, elements, head or tail (DESIGN section 6: structural names; Cas.add sets any "
     "attribute called sofa)",
-    "premises of C05_load_xmi_is_denotation (reader_okb, counted per case): closed document (doc_ok_xmi), _InitialView sofa "
-    "present, distinct view names, elements of defined types named by the UIMA rule, child elements only under string "
-    "array / list features, annotations members of the view of their own sofa only",
+    "premises of C05_load_xmi_is_denotation_general (reader_okb0, counted per case): closed document (doc_ok_xmi), "
+    "distinct view names, elements of defined types named by the UIMA rule, child elements only under string "
+    "array / list features, annotations members of the view of their own sofa only; an _InitialView sofa is NOT required "
+    "(without one the pre-created view gets the next free xmi:id and sofaNum)",
     "feature structures not reachable from any view member are compared with the model only through what references them "
     "(scen.canon observes from the view members)",
 ]
